@@ -212,6 +212,18 @@ def run_one(args):
         out['safe_sites'] = sorted(safe)
         out['assumptions'] = sorted(ex.used_assumptions)
         out['inlined'] = sorted(ex.inlined)
+        # the hash that decides "has the verified text changed since the baseline" covers the function AND every function
+        # that was inlined into it (a contract on cimvalue() executes CIMInt.__new__ from its source: a change there is a
+        # change of the verified text, not a regression of the verifier)
+        import hashlib as _hl
+        parts = [out.get('source_hash') or '']
+        for k in out['inlined']:
+            try:
+                parts.append(k + ':' + repo.find_function(k).source_hash())
+            except Exception:
+                parts.append(k + ':?')
+        out['own_source_hash'] = out.get('source_hash')
+        out['source_hash'] = _hl.sha256('|'.join(parts).encode()).hexdigest()[:16]
         out['callee_contracts'] = sorted(ex.contract_calls)
         out['solver_secs'] = ex.solver_secs + sum(o['secs'] for o in out['obligations'])
         out['feas_calls'] = ex.feas_calls
